@@ -173,6 +173,9 @@ fn execute_iterations<'i>(
             // a failed iteration leaves its generation incomplete, whether the failure happens in this run
             // or is replayed from a failed state of the data (which marks the subgraph incomplete itself)
             exec_ctx.make_subgraph_incomplete();
+            // the failure ends here: :error: is no-error again and free for the next failure
+            exec_ctx.error_descriptor.enable_error_setting();
+            exec_ctx.error_descriptor.clear_error_object_if_needed();
         }
         throw_error_if_not_catchable(result)?;
         trace_to_exec_err!(trace_ctx.meet_generation_end(ingredients.fold_id), fold_to_string)?;
